@@ -20,7 +20,7 @@ func runC18() {
 		keep := map[string]bool{"skip": true, "atts:none": true, "exits(3)": true, "payload:txs": true, "blobs:1": true, "blobs:max": true, "slashing+exit+attester-slashing": true, "atts:delay-2": true}
 		var out []chainh.Choice
 		for _, c := range chainh.FullMenu(n, slot) {
-			if keep[c.String()] || strings.HasPrefix(c.String(), "bls-change") {
+			if keep[c.String()] || strings.HasPrefix(c.String(), "bls-change") || strings.HasPrefix(c.String(), "payload:none") || strings.HasPrefix(c.String(), "payload:merge") {
 				out = append(out, c)
 			}
 		}
